@@ -177,6 +177,67 @@ def _work(unit):
     return out
 
 
+CHAIN_PROBES = [(0.0, 0.5), (0.26, 0.5), (0.9, 0.5), (0.26, 0.05), (0.4, 0.05), (0.0, 0.05), (-0.26, 0.5), (-0.9, 0.5)]   # (target weight, threshold)
+
+
+def chain_case(case, a, thr):
+    """Threshold rule for a request on a futures chain: the contract the chain denotes now is traded iff its imbalance weight
+    reaches the threshold; a contract of the chain that is held but is not the denoted one is absent from the target and liquidated."""
+    from mcx import chainreq as CR
+    b, chain, cs, now, px = CR.setup(case)
+    R = CR.ref_lead(cs, now, case[0])
+    nlv = float(b.net_liquidation_value(False))
+    h = CR.held(b, cs)
+    rb = Rebalancing(contracts=[chain], allocation=[a], measure="weight", time=now, margin=thr)
+    try:
+        trades = rb.make_trades(b)
+    except Exception as ex:
+        reset_clock()
+        return ["make_trades of a chain request raised %r" % (ex,)], False
+    reset_clock()
+    got = {t.contract.symbol: float(t.quantity) for t in trades}
+    msgs = []
+    decided = False
+    for c in cs:
+        q = h.get(c.symbol, 0.0)
+        if c is not R:
+            if q != 0:
+                decided = True
+                if abs(got.get(c.symbol, 0.0) + q) > 1e-9 * max(1.0, abs(q)):
+                    msgs.append("%s is held (%r) and is not the contract the chain denotes (%s): it must be liquidated whatever the threshold %r, emitted %r"
+                                % (c.symbol, q, R.symbol, thr, got.get(c.symbol)))
+            elif c.symbol in got:
+                msgs.append("trade emitted in %s, which is neither held nor denoted by the chain" % c.symbol)
+            continue
+        bid, ask = px[c.symbol]
+        held_w = q * c.multiplier * (bid if q > 0 else ask) / nlv
+        imb = a - held_w
+        if a == 0:
+            want = q != 0           # liquidation of the denoted contract itself
+        elif abs(abs(imb) - thr) < 0.02:
+            continue                # too close to the threshold for this coarse probe (price side conventions)
+        else:
+            want = abs(imb) >= thr
+        decided = True
+        if want != (c.symbol in got):
+            msgs.append("denoted contract %s: imbalance weight %r, threshold %r, %s" % (c.symbol, imb, thr, "no trade emitted" if want else "trade emitted: %r" % got.get(c.symbol)))
+    return msgs, decided
+
+
+def chain_part(rep):
+    from mcx import chainreq as CR
+    n = 0
+    for case in CR.cases():
+        for a, thr in CHAIN_PROBES:
+            msgs, decided = chain_case(case, a, thr)
+            n += 1
+            if msgs:
+                rep.violation({"part": "chain", "case": list(case), "alloc": a, "threshold": thr},
+                              "chain request %s target %r threshold %r: %s" % (case, a, thr, "; ".join(msgs[:2])), group=("chain", msgs[0].split(" ")[0], case[0]))
+    rep.add("evaluations", n)
+    rep.set("chain_requests", n)
+
+
 def run(tier, **kw):
     rep = Report("C12", tier, LEVEL)
     srcs = sources(tier)
@@ -194,6 +255,7 @@ def run(tier, **kw):
         nt |= r["nontrivial"]
         for case, msg, group in r["violations"]:
             rep.violation(case, msg, group=group)
+    chain_part(rep)
     rep.set("start_states", nstates)
     rep.set("distinct_nontrivial", len(nt))
     rep.set("rule", "one evaluation = one make_trades/rebalance call on a fresh copy of a reachable broker state for one "
@@ -218,6 +280,8 @@ def run(tier, **kw):
 
 
 def replay(case, **kw):
+    if case.get("part") == "chain":
+        return chain_case(tuple(case["case"]), case["alloc"], case["threshold"])[0]
     reset_clock()
     universe, fee = case["universe"], tuple(case["fee"])
     quotes = [tuple(q) for q in case["quotes"]]
